@@ -151,6 +151,49 @@ def chunked(body, size=None, last_ext=b""):
     return out + b"0" + last_ext + b"\r\n\r\n"
 
 
+def reply_parts(method, beh, istag=b'"vf-c60-1"'):
+    """(icap head, encapsulated http head, chunked body stream [+ trailer]) of the reply a behaviour asks for; None for acts without a reply"""
+    act = beh.get("act", "204")
+    tag = b"ISTag: " + istag + b"\r\n"
+    if act == "204":
+        return (b"ICAP/1.0 204 No Content\r\n" + tag + b"Encapsulated: null-body=0\r\n\r\n", b"", b"")
+    if re.fullmatch(r"e\d+", act):
+        return (b"ICAP/1.0 %d Scripted\r\n" % int(act[1:]) + tag + b"Encapsulated: null-body=0\r\n\r\n", b"", b"")
+    if act == "g":
+        return (b"HELLO THIS IS NOT ICAP\r\n\r\n", b"", b"")
+    if act in ("200", "200n", "200r", "206"):
+        head = beh["head"]
+        is_resp = method == "RESPMOD" or act == "200r"
+        hname = b"res-hdr" if is_resp else b"req-hdr"
+        bname = b"res-body" if is_resp else b"req-body"
+        trailer = beh.get("trailer")
+        extra = b""
+        if trailer is not None:
+            extra = b"Trailer: X-Vf-Trailer\r\nAllow: trailers\r\n"
+        status = b"206 Partial Content" if act == "206" else b"200 OK"
+        if act == "200n":
+            return (b"ICAP/1.0 " + status + b"\r\n" + tag + extra + b"Encapsulated: " + hname + b"=0, null-body=%d\r\n\r\n" % len(head), head, trailer or b"")
+        ext = b"; use-original-body=%d" % beh.get("uob", 0) if act == "206" else b""
+        return (b"ICAP/1.0 " + status + b"\r\n" + tag + extra + b"Encapsulated: " + hname + b"=0, " + bname + b"=%d\r\n\r\n" % len(head), head,
+                chunked(beh.get("body", b""), beh.get("chunk"), ext) + (trailer or b""))
+    return None
+
+
+def body_offset(body_len, chunk, n):
+    """offset into chunked(body, chunk) right after the n-th body byte (n >= 1), or of the last-chunk when n is None"""
+    size = chunk if chunk and chunk > 0 else (body_len or 1)
+    pos = 0
+    done = 0
+    for i in range(0, body_len, size):
+        part = min(size, body_len - i)
+        pos += len(b"%x\r\n" % part)
+        if n is not None and done + part >= n:
+            return pos + (n - done)
+        pos += part + 2
+        done += part
+    return pos
+
+
 class IcapStub:
     def __init__(self, istag=b'"vf-c60-1"'):
         self.sock = socket.socket()
@@ -320,30 +363,8 @@ class IcapStub:
         return True
 
     def _reply_bytes(self, rec, beh):
-        act = beh.get("act", "204")
-        tag = b"ISTag: " + self.istag + b"\r\n"
-        if act == "204":
-            return b"ICAP/1.0 204 No Content\r\n" + tag + b"Encapsulated: null-body=0\r\n\r\n"
-        if act.startswith("e"):
-            return b"ICAP/1.0 %d Scripted\r\n" % int(act[1:]) + tag + b"Encapsulated: null-body=0\r\n\r\n"
-        if act == "g":
-            return b"HELLO THIS IS NOT ICAP\r\n\r\n"
-        if act in ("200", "200n", "200r", "206"):
-            head = beh["head"]
-            is_resp = rec["method"] == "RESPMOD" or act == "200r"
-            hname = b"res-hdr" if is_resp else b"req-hdr"
-            bname = b"res-body" if is_resp else b"req-body"
-            trailer = beh.get("trailer")
-            extra = b""
-            if trailer is not None:
-                extra = b"Trailer: X-Vf-Trailer\r\nAllow: trailers\r\n"
-            status = b"206 Partial Content" if act == "206" else b"200 OK"
-            if act == "200n":
-                return b"ICAP/1.0 " + status + b"\r\n" + tag + extra + b"Encapsulated: " + hname + b"=0, null-body=%d\r\n\r\n" % len(head) + head + (trailer or b"")
-            ext = b"; use-original-body=%d" % beh.get("uob", 0) if act == "206" else b""
-            return (b"ICAP/1.0 " + status + b"\r\n" + tag + extra + b"Encapsulated: " + hname + b"=0, " + bname + b"=%d\r\n\r\n" % len(head) + head +
-                    chunked(beh.get("body", b""), beh.get("chunk"), ext) + (trailer or b""))
-        return None
+        parts = reply_parts(rec["method"], beh, self.istag)
+        return None if parts is None else b"".join(parts)
 
     def _act(self, c, rec, beh):
         act = beh.get("act", "204")
